@@ -412,7 +412,14 @@ class TimeReparametrizedMixtureModel(McmcSaemCompatibleModel):
         dataset : :class:`~leaspy.io.data.Data.Dataset`
             Dataset used to initialize latent variables accordingly.
         """
-        df = dataset.to_pandas().reset_index("TIME").groupby("ID").min()
+        df = (
+            dataset.to_pandas()
+            .reset_index("TIME")
+            .groupby("ID")
+            .min()
+            # `groupby` sorts by ID: back to the order of individuals of the dataset (values are used positionally)
+            .loc[dataset.indices]
+        )
 
         # Initialise individual parameters if they are not already initialised
         if not state.are_variables_set(("xi", "tau")):
